@@ -15,7 +15,17 @@
    Positions in the import file ([index]) and block heights ([height]) are
    distinct wrapper types; every conversion is explicit ([ix_of_height],
    [height_of_ix]), so that a mix-up is a type error here while it is not in
-   the Go code.  No proofs in this file. *)
+   the Go code.
+
+   The context handed to Import is an input: [fl_cancel] says at which poll
+   of the context (calls of ctxCancelled, counted in program order over the
+   whole import) it starts to report cancellation.  The code polls in three
+   places: blockHeadersImportSourceValidator.Validate once per batch (and
+   returns nil, validating nothing more, when cancelled),
+   filterHeadersImportSourceValidator.Validate once per batch (same), and
+   appendNewHeaders at the top of every iteration of its batch loop, for the
+   divergence region and for the new-headers region (returns ctx.Err()).
+   No proofs in this file. *)
 From Coq Require Import ZArith List Bool Lia.
 Import ListNotations.
 Open Scope Z_scope.
@@ -281,6 +291,24 @@ Definition read_batch {A} (get : index -> option A) (avail : Z) (startI endI : i
   end.
 
 (* ------------------------------------------------------------------ *)
+(* Injected faults and the context *)
+
+(* the k-th non-empty WriteHeaders call of the block (filter) store fails,
+   0 = never; rollback failure.  A failing call leaves its store unchanged
+   (the contract of headerfs, property C07). *)
+(* [fl_cancel]: the context reports cancellation from its [fl_cancel]-th poll
+   on (1 = already cancelled when Import is entered), 0 = never.  [c_poll]
+   counts the polls made so far. *)
+Record faults := mkF { fl_bw : Z; fl_fw : Z; fl_rb : bool; fl_cancel : Z }.
+Record ctr := mkC { c_bw : Z; c_fw : Z; c_poll : Z }.
+
+(* does the n-th poll (n >= 1) of the context report cancellation?  Once
+   cancelled, a context stays cancelled. *)
+Definition is_canc (fl : faults) (n : Z) : bool := (0 <? fl_cancel fl) && (fl_cancel fl <=? n).
+(* ctxCancelled(ctx): one more poll; its answer is [is_canc fl (c_poll (tick c))] *)
+Definition tick (c : ctr) : ctr := mkC (c_bw c) (c_fw c) (c_poll c + 1).
+
+(* ------------------------------------------------------------------ *)
 (* Validators *)
 
 (* lightHeaderCtx.RelativeAncestorCtx lookup: target store first, then the
@@ -338,6 +366,39 @@ Definition validate_blocks (P : params) (s : stores) (src : bsource) (bs : Z) : 
   let es := with_heights (bs_hdrs src) st in
   validate_chunks (S (length es)) P (lk s src) (Nat.max 1 (chunk_size bs (length es))) seed es.
 
+(* The validator as it runs under a context that may be cancelled: before
+   each batch it polls the context and, when cancelled, returns nil WITHOUT
+   validating that batch or any later one (block_headers_validator.go:
+   "if err := ctxCancelled(ctx); err != nil { return nil }").  Result: (no
+   error reported, counters).  [validate_chunks] above is what it computes
+   when no poll reports cancellation. *)
+Fixpoint validate_chunks_c (fuel : nat) (P : params) (look : Z -> option hdr) (n : nat)
+         (last : option bent) (l : list bent) (fl : faults) (c : ctr) : bool * ctr :=
+  match fuel with
+  | O => (true, c)
+  | S k =>
+    match l with
+    | [] => (true, c)
+    | x :: _ =>
+      let c1 := tick c in
+      if is_canc fl (c_poll c1) then (true, c1) else
+      let ch := firstn n l in
+      if validate_batch P look ch &&
+         (match last with Some p => pair_ok P look p x | None => true end)
+      then validate_chunks_c k P look n (Some (lastd ch x)) (skipn n l) fl c1
+      else (false, c1)
+    end
+  end.
+
+Definition validate_blocks_c (P : params) (s : stores) (src : bsource) (bs : Z) (fl : faults) (c : ctr)
+  : bool * ctr :=
+  let st := hz (b_start src) in
+  let seed := if st >? 0 then
+                match b_fetch s (Ht (st - 1)) with Some p => Some (p, st - 1) | None => None end
+              else None in
+  let es := with_heights (bs_hdrs src) st in
+  validate_chunks_c (S (length es)) P (lk s src) (Nat.max 1 (chunk_size bs (length es))) seed es fl c.
+
 (* filterHeadersImportSourceValidator: every header against the checkpoints *)
 Definition fcp_ok (P : params) (h fh : Z) : bool :=
   match idx_get (p_fcps P) h with Some c => fh =? c | None => true end.
@@ -345,6 +406,31 @@ Fixpoint validate_filters_from (P : params) (l : list Z) (h : Z) : bool :=
   match l with [] => true | x :: r => fcp_ok P h x && validate_filters_from P r (h + 1) end.
 Definition validate_filters (P : params) (src : fsource) : bool :=
   validate_filters_from P (fs_hdrs src) (hz (m_start (fs_meta src))).
+
+(* filterHeadersImportSourceValidator.Validate under a context: batches of the
+   iterator's batch size, one poll before each batch, nil without validating
+   the rest when cancelled. *)
+Fixpoint validate_filters_c (fuel : nat) (P : params) (n : nat) (l : list Z) (h : Z)
+         (fl : faults) (c : ctr) : bool * ctr :=
+  match fuel with
+  | O => (true, c)
+  | S k =>
+    match l with
+    | [] => (true, c)
+    | _ :: _ =>
+      let c1 := tick c in
+      if is_canc fl (c_poll c1) then (true, c1) else
+      let ch := firstn n l in
+      if validate_filters_from P ch h
+      then validate_filters_c k P n (skipn n l) (h + Z.of_nat (length ch)) fl c1
+      else (false, c1)
+    end
+  end.
+
+Definition validate_filters_cc (P : params) (src : fsource) (bs : Z) (fl : faults) (c : ctr) : bool * ctr :=
+  let l := fs_hdrs src in
+  validate_filters_c (S (length l)) P (Nat.max 1 (chunk_size bs (length l))) l
+                     (hz (m_start (fs_meta src))) fl c.
 
 (* ------------------------------------------------------------------ *)
 (* Continuity, overlap verification, regions *)
@@ -417,12 +503,6 @@ Definition regions (s : stores) (b : bsource) : option (region * region) :=
 (* ------------------------------------------------------------------ *)
 (* Batched append with injected write faults *)
 
-(* the k-th non-empty WriteHeaders call of the block (filter) store fails,
-   0 = never; rollback failure.  A failing call leaves its store unchanged
-   (the contract of headerfs, property C07). *)
-Record faults := mkF { fl_bw : Z; fl_fw : Z; fl_rb : bool }.
-Record ctr := mkC { c_bw : Z; c_fw : Z }.
-
 Inductive result := Success | Failure.
 
 Fixpoint set_last_blk (l : list fent) (k : Z) : list fent :=
@@ -436,18 +516,18 @@ Fixpoint set_last_blk (l : list fent) (k : Z) : list fent :=
 Definition write_both (fl : faults) (c : ctr) (s : stores) (bb : list bent) (fb : list fent)
   : result * stores * ctr :=
   let cb := if Nat.eqb (length bb) 0 then c_bw c else c_bw c + 1 in
-  if negb (Nat.eqb (length bb) 0) && (cb =? fl_bw fl) then (Failure, s, mkC cb (c_fw c)) else
+  if negb (Nat.eqb (length bb) 0) && (cb =? fl_bw fl) then (Failure, s, mkC cb (c_fw c) (c_poll c)) else
   let s1 := b_write s bb in
   let cf := if Nat.eqb (length fb) 0 then c_fw c else c_fw c + 1 in
   if negb (Nat.eqb (length fb) 0) && (cf =? fl_fw fl) then
     (* compensating rollback of the block headers just written *)
-    if Nat.eqb (length bb) 0 then (Failure, s1, mkC cb cf) else
-    if fl_rb fl then (Failure, s1, mkC cb cf) else
+    if Nat.eqb (length bb) 0 then (Failure, s1, mkC cb cf (c_poll c)) else
+    if fl_rb fl then (Failure, s1, mkC cb cf (c_poll c)) else
     match b_rollback s1 (Z.of_nat (length bb)) with
-    | Some s2 => (Failure, s2, mkC cb cf)
-    | None => (Failure, s1, mkC cb cf)
+    | Some s2 => (Failure, s2, mkC cb cf (c_poll c))
+    | None => (Failure, s1, mkC cb cf (c_poll c))
     end
-  else (Success, f_write s1 fb, mkC cb cf).
+  else (Success, f_write s1 fb, mkC cb cf (c_poll c)).
 
 Inductive batch_res := B_eof | B_fail | B_done (batch_end : height).
 
@@ -505,13 +585,17 @@ Definition process_batch (fl : faults) (c : ctr) (s : stores) (b : bsource) (f :
     end
   end.
 
-(* appendNewHeaders(startHeight, endHeight, mode): the batch loop *)
+(* appendNewHeaders(ctx, startHeight, endHeight, mode): the batch loop *)
 Fixpoint append_loop (fuel : nat) (fl : faults) (c : ctr) (s : stores) (b : bsource) (f : fsource)
          (batch_start : height) (endI : index) (bs : Z) (m : amode) : result * stores * ctr :=
   match fuel with
   | O => (Success, s, c)
   | S k =>
-    match process_batch fl c s b f batch_start (ix_of_height batch_start (b_start b)) endI bs m with
+    (* "if err := ctxCancelled(ctx); err != nil { return err }" at the top of
+       every iteration, the one that finds the region exhausted included *)
+    let c1 := tick c in
+    if is_canc fl (c_poll c1) then (Failure, s, c1) else
+    match process_batch fl c1 s b f batch_start (ix_of_height batch_start (b_start b)) endI bs m with
     | (B_eof, s', c') => (Success, s', c')
     | (B_fail, s', c') => (Failure, s', c')
     | (B_done (Ht e), s', c') => append_loop k fl c' s' b f (Ht (e + 1)) endI bs m
@@ -528,18 +612,27 @@ Definition append_region (fl : faults) (c : ctr) (s : stores) (b : bsource) (f :
 (* ------------------------------------------------------------------ *)
 (* Import *)
 
-Definition import (P : params) (s : stores) (b : bsource) (f : fsource) (bs : Z) (fl : faults)
+(* the two validators, block headers first: (no error reported, counters
+   afterwards) *)
+Definition validation (P : params) (s : stores) (b : bsource) (f : fsource) (bs : Z) (fl : faults)
+  : bool * ctr :=
+  let '(vb, c1) := validate_blocks_c P s b (eff_batch bs) fl (mkC 0 0 0) in
+  if vb then validate_filters_cc P f (eff_batch bs) fl c1 else (false, c1).
+
+(* some poll made by the validators reported cancellation: validation was cut
+   short (ghost observation for the statements; polls are monotone, so this
+   is the answer of the last poll the validators made) *)
+Definition cancelled_in_validation (P : params) (s : stores) (b : bsource) (f : fsource) (bs : Z)
+           (fl : faults) : bool :=
+  is_canc fl (c_poll (snd (validation P s b f bs fl))).
+
+(* determineProcessingRegions, processDivergenceHeadersRegion,
+   processNewHeadersRegion; [c0]: counters after validation *)
+Definition process_regions (s : stores) (b : bsource) (f : fsource) (bs : Z) (fl : faults) (c0 : ctr)
   : result * stores :=
-  if negb (open_ok (bs_meta b) (length (bs_hdrs b)) && open_ok (fs_meta f) (length (fs_hdrs f)))
-  then (Failure, s) else
-  if negb (compat P b f) then (Failure, s) else
-  if negb (continuity s b f) then (Failure, s) else
-  if negb (validate_blocks P s b (eff_batch bs)) then (Failure, s) else
-  if negb (validate_filters P f) then (Failure, s) else
   match regions s b with
   | None => (Failure, s)
   | Some (dv, nw) =>
-    let c0 := mkC 0 0 in
     let '(r1, s1, c1) :=
       if r_exists dv then
         if verify_at s b f (r_end dv) (r_v dv)
@@ -554,6 +647,17 @@ Definition import (P : params) (s : stores) (b : bsource) (f : fsource) (bs : Z)
         (r2, s2)
       else (Success, s1)
     end
+  end.
+
+Definition import (P : params) (s : stores) (b : bsource) (f : fsource) (bs : Z) (fl : faults)
+  : result * stores :=
+  if negb (open_ok (bs_meta b) (length (bs_hdrs b)) && open_ok (fs_meta f) (length (fs_hdrs f)))
+  then (Failure, s) else
+  if negb (compat P b f) then (Failure, s) else
+  if negb (continuity s b f) then (Failure, s) else
+  match validation P s b f bs fl with
+  | (false, _) => (Failure, s)
+  | (true, c0) => process_regions s b f bs fl c0
   end.
 
 (* ------------------------------------------------------------------ *)
